@@ -6,7 +6,7 @@
    depend only on that document's postings: needs the phrase-chain theorem of C03).  They are explicit
    premises here, quantified over a predicate good_posts that every postings table in the pool satisfies. *)
 From Coq Require Import ZArith.
-From SA Require Import Base.Prelude Index.Index Index.Index_Spec View.View View.Purity View.Purity_Proofs View.Purity_Gen View.Purity_Indexed.
+From SA Require Import Base.Prelude Index.Index Index.Index_Spec View.View View.Purity View.Purity_Proofs View.Purity_Gen View.Purity_Indexed View.Purity_Indexed2.
 Open Scope N_scope.
 
 (* every output of every operation equals the history-free answer, in every state reachable from a pool
@@ -94,3 +94,26 @@ Proof. exact indexed_history_free_initial. Qed.
 (* the domain is not empty: an 18-operation history with views of views, ranged tf, phrases, scores, copies *)
 Example C07_domain_nonvacuous : ops_in_domain Purity_Proofs.ex_docs ex_ops2.
 Proof. exact (proj1 ex2_in_domain). Qed.
+
+(* ================= NO premise and NO domain condition: every non-empty indexed corpus =================
+   View/View_Phrase3.v proves locality of the phrase pipeline for EVERY phrase (immediate repetitions included) and EVERY
+   position range, through either handle; hence (View/Purity_Indexed2.v), for every non-empty corpus within the limits,
+   every operation sequence whatsoever: *)
+Theorem C07_every_output_is_history_free : forall docs bs ix cg ops outs p',
+  wf_docs docs -> docs <> [] -> index false bs docs = AOk ix -> run (init_pool ix cg) ops = (outs, p') ->
+  forall k o r, nth_error ops k = Some o -> nth_error outs k = Some r ->
+    forall r0, pure_answer (snd (run (init_pool ix cg) (firstn k ops))) o = Some r0 -> r = r0.
+Proof. exact indexed_run_pure_any. Qed.
+Print Assumptions C07_every_output_is_history_free.
+
+Theorem C07_repeat_same : forall docs bs ix cg ops1 outs1 p1 q r1 p1' ops2 outs2 p2 r2 p3,
+  wf_docs docs -> docs <> [] -> index false bs docs = AOk ix ->
+  run (init_pool ix cg) ops1 = (outs1, p1) -> pure_answer p1 q <> None ->
+  step p1 q = (r1, p1') -> run p1' ops2 = (outs2, p2) -> step p2 q = (r2, p3) -> r2 = r1.
+Proof. exact indexed_repeat_same_any. Qed.
+
+Theorem C07_history_free : forall docs bs ix cg ops1 outs1 p1 ops2 outs2 p2 q,
+  wf_docs docs -> docs <> [] -> index false bs docs = AOk ix ->
+  run (init_pool ix cg) ops1 = (outs1, p1) -> run p1 ops2 = (outs2, p2) -> pure_answer p1 q <> None ->
+  fst (step p2 q) = fst (step p1 q).
+Proof. exact indexed_history_free_any. Qed.
